@@ -39,6 +39,8 @@ pub struct LifeCfg {
     pub o_owned_laws: bool,
     /// exact reference storage model: predicted indices and exact used bytes per storage (C11, C18)
     pub o_model: bool,
+    /// with o_model: total used bytes must equal the model's total (C11: a collapsed push stores nothing)
+    pub exact_total: bool,
     /// C15: ==, partial_cmp, cmp between all pairs/triples of read items
     pub o_order: bool,
     /// deviation script: horizon value pattern
@@ -70,6 +72,7 @@ impl LifeCfg {
             o_positions: false,
             o_owned_laws: false,
             o_model: false,
+            exact_total: false,
             o_order: false,
             script: 0,
             coded_merges: false,
@@ -107,6 +110,8 @@ pub struct LifeMachine<S: Spec> {
     m: S::M,
     /// the region is a coded region built by merge_regions and not cleared since
     coded_merged: bool,
+    /// model index of the previous push since the last clear / merge
+    last_midx: Option<MIdx>,
     tags: Vec<String>,
 }
 
@@ -183,6 +188,7 @@ impl<S: Spec> LifeMachine<S> {
             count: 0,
             m: Default::default(),
             coded_merged: false,
+            last_midx: None,
             tags: vec![],
         }
     }
@@ -200,7 +206,13 @@ impl<S: Spec> LifeMachine<S> {
         m
     }
 
-    /// C18 / C11: heap_size against the exact reference layout.
+    /// C18 / C11: heap_size against the reference storage model.
+    ///
+    /// C18 (`exact_total == false`) is decided at the level the property states: used <= capacity,
+    /// total used >= payload bytes + per-element index entries of the model, never decreasing on push,
+    /// after clear nothing but structure is accounted and no capacity shrinks.
+    /// C11 (`exact_total == true`) additionally needs "a collapsed push stores nothing new": the total of
+    /// the used bytes must equal the model's total (independent of callback order).
     fn check_model(&self, what: &str, before: &Option<Vec<(usize, usize)>>, was_clear: bool, was_push: bool) -> Result<(), String> {
         if !(self.cfg.o_model && self.e.has_heap) {
             return Ok(());
@@ -211,14 +223,20 @@ impl<S: Spec> LifeMachine<S> {
                 return Err(format!("after {what}: heap_size pair #{i} reports used {u} > capacity {c} ({h:?})"));
             }
         }
+        let total: usize = h.iter().map(|x| x.0).sum();
         if let Some(b) = before {
-            if was_push && h.iter().map(|x| x.0).sum::<usize>() < b.iter().map(|x| x.0).sum::<usize>() {
+            if was_push && total < b.iter().map(|x| x.0).sum::<usize>() {
                 return Err(format!("after {what}: total used bytes decreased on push: {b:?} -> {h:?}"));
             }
-            if was_clear && b.len() == h.len() {
-                for (i, (x, y)) in b.iter().zip(&h).enumerate() {
-                    if y.1 < x.1 {
-                        return Err(format!("after clear(): reported capacity #{i} shrank from {} to {} ({b:?} -> {h:?})", x.1, y.1));
+            if was_clear {
+                if h.len() < b.len() {
+                    return Err(format!("after clear(): heap_size makes {} callbacks instead of {} ({b:?} -> {h:?})", h.len(), b.len()));
+                }
+                if b.len() == h.len() {
+                    for (i, (x, y)) in b.iter().zip(&h).enumerate() {
+                        if y.1 < x.1 {
+                            return Err(format!("after clear(): reported capacity #{i} shrank from {} to {} ({b:?} -> {h:?})", x.1, y.1));
+                        }
                     }
                 }
             }
@@ -226,20 +244,23 @@ impl<S: Spec> LifeMachine<S> {
         if S::MODELLED {
             let mut layout = Vec::new();
             S::m_layout(&self.m, &mut layout);
-            let used: Vec<usize> = h.iter().map(|x| x.0).collect();
-            let want: Vec<usize> = layout.iter().map(|s| s.used).collect();
-            if used.len() != want.len() {
+            let model_total: usize = layout.iter().map(|s| s.used).sum();
+            let lower: usize = layout.iter().filter(|s| matches!(s.kind, Kind::Payload | Kind::Entries)).map(|s| s.used).sum();
+            if total < lower {
                 return Err(format!(
-                    "after {what}: heap_size makes {} callbacks, the composition has {} storages ({:?}); reported {h:?}",
-                    used.len(),
-                    want.len(),
-                    layout.iter().map(|s| s.kind).collect::<Vec<_>>()
+                    "after {what}: heap_size accounts for {total} used bytes, but {lower} bytes of payload and per-element index entries are stored (reported {h:?}; model {:?})",
+                    layout.iter().map(|s| (s.kind, s.used)).collect::<Vec<_>>()
                 ));
             }
-            if used != want {
+            if was_clear && total > model_total {
                 return Err(format!(
-                    "after {what}: used bytes per storage {used:?} differ from the reference model {want:?} (kinds {:?})",
-                    layout.iter().map(|s| s.kind).collect::<Vec<_>>()
+                    "after clear(): {total} used bytes are still accounted, an emptied region of this shape accounts for {model_total} (reported {h:?})"
+                ));
+            }
+            if self.cfg.exact_total && total != model_total {
+                return Err(format!(
+                    "after {what}: {total} used bytes in total, the reference model (payload after deduplication + index entries) gives {model_total} (reported {h:?}; model {:?})",
+                    layout.iter().map(|s| (s.kind, s.used)).collect::<Vec<_>>()
                 ));
             }
         }
@@ -365,14 +386,31 @@ impl<S: Spec> LifeMachine<S> {
         self.count += 1;
         if self.cfg.o_model && S::MODELLED {
             let want = S::m_push(&mut self.m, &v);
-            if let Some(w) = want.render() {
-                if w != idx_str(&idx) {
+            // dense indices are promised (C12); pair indices are opaque and only compared for sameness
+            if let MIdx::Dense(k) = want {
+                if self.e.dense && k.to_string() != idx_str(&idx) {
                     return Step::Violation(format!(
-                        "push({}) as {fname} returned index {}, the reference model gives {w}",
+                        "push({}) as {fname} returned index {}, the reference model gives {k}",
                         S::show(&v),
                         idx_str(&idx)
                     ));
                 }
+            }
+            if want != MIdx::Opaque {
+                if let (Some(pm), Some((pi, _))) = (self.last_midx, self.a.issued.last()) {
+                    let (model_same, real_same) = (pm == want, idx_str(pi) == idx_str(&idx));
+                    if model_same != real_same {
+                        return Step::Violation(format!(
+                            "push({}) as {fname} returned index {} ({} the previous index {}); the item {} the previously stored one",
+                            S::show(&v),
+                            idx_str(&idx),
+                            if real_same { "the same as" } else { "different from" },
+                            idx_str(pi),
+                            if model_same { "equals" } else { "differs from" }
+                        ));
+                    }
+                }
+                self.last_midx = Some(want);
             }
         }
         if let Some((prev, _)) = self.a.issued.last() {
@@ -472,6 +510,7 @@ impl<S: Spec> Machine for LifeMachine<S> {
         self.count = 0;
         self.m = Default::default();
         self.coded_merged = false;
+        self.last_midx = None;
         self.tags.clear();
     }
     fn enabled(&self) -> Vec<OpId> {
@@ -519,6 +558,7 @@ impl<S: Spec> Machine for LifeMachine<S> {
                 self.a.issued.clear();
                 self.count = 0;
                 self.coded_merged = false;
+                self.last_midx = None;
                 S::m_clear(&mut self.m);
                 match self.cfg.twin {
                     Twin::FreshAtClear => self.twin = Some(Side { r: Default::default(), issued: vec![] }),
@@ -586,6 +626,7 @@ impl<S: Spec> Machine for LifeMachine<S> {
                     self.m = nm;
                 }
                 self.coded_merged = self.e.coded != Coded::No;
+                self.last_midx = None;
                 match merged {
                     Ok(m) => self.a = Side { r: m, issued: vec![] },
                     Err(p) if self.e.zst && crate::engine::exhaustion(&p) => return Step::Refused(p),
